@@ -16,7 +16,7 @@ from sx import shims
 PROPERTY = "C14"
 ASSUMPTIONS = [
     "same NumPy seed = the same outcomes of np.random.* in the same order (the recorded draws of run 1 are replayed in run 2); every other source a PyXAB module can reach through its globals (modules time, random, os, uuid, datetime, secrets if imported there; builtins id and hash) returns a fresh arbitrary value at every call",
-    "dependence through the iteration order of sets/dicts keyed by objects, and C-level RNGs other than np.random.*, cannot be made symbolic from outside the interpreter and are outside the claim",
+    "object hashes of partition cells are made an environment too, but only concretely: the two runs of the determinism mode use two different hash assignments (creation order vs a scrambled order), so a dependence on the iteration order of a set / dict keyed by cells shows up as a difference between the runs for these two assignments; other hash assignments, hashes of objects that are not cells, and C-level RNGs other than np.random.* are outside the claim",
     "isolation is explored for RNG-free partitions (B, K3, DB in d=1) as the property's quantifier says; both instances get independent symbolic rewards",
 ]
 T_DET = {"T_HOO": 5, "HCT": 6, "VHCT": 3, "DOO": 5, "SOO": 6, "StoSOO": 6, "SequOOL": 7, "StroquOOL": 7, "VROOM": 1, "Zooming": 4, "POO": 4, "GPO": 4, "PCT": 4, "VPCT": 3}
@@ -46,6 +46,7 @@ def configs(tier, seed):
             out.append({"name": "dom-VROOM-d1", "mode": "dom", "algo": algo, "part": "B", "d": 1, "T": 1, "cost": 4})
         else:
             out.append({"name": "dom-%s-d2" % algo, "mode": "dom", "algo": algo, "part": "DB", "d": 2, "T": 2, "cost": 4})
+    out.append({"name": "det-StroquOOL-B-n200-T18", "mode": "det", "algo": "StroquOOL", "part": "B", "d": 1, "T": 18, "params": {"n": 200}, "cost": 60})
     for algo, T in T_ISO.items():
         for part in ("B", "K3"):
             out.append({"name": "iso-%s-%s-x2-T%d" % (algo, part, T + q), "mode": "iso", "algo": algo, "other": algo, "part": part, "d": 1, "T": T + q, "cost": 20})
@@ -66,8 +67,28 @@ OTHER_ARGS = {
 }
 
 
+_HASH = {"scheme": 0, "count": 0}
+
+
+def set_hash_scheme(k):
+    _HASH["scheme"] = k
+
+
 def setup(mods_):
     shims.install_env(mods_)
+    # object hashes (hence the iteration order of sets / dicts keyed by cells) differ between the two runs of
+    # the determinism mode: run 1 hashes cells in creation order, run 2 in a scrambled order
+    P_node = mods_["Node"].P_node
+    orig_init = P_node.__init__
+
+    def init(self, *a, **kw):
+        _HASH["count"] += 1
+        k = _HASH["count"]
+        self._verif_hash = k if _HASH["scheme"] == 0 else (k * 7919 + 13) % 1021
+        orig_init(self, *a, **kw)
+
+    P_node.__init__ = init
+    P_node.__hash__ = lambda self: getattr(self, "_verif_hash", 0)
 
 
 def snapshot(dom):
@@ -83,16 +104,35 @@ def check_domain(ctx, dom, snap, tag):
     ctx.check(tag, ok, "the domain object passed by the user was modified")
 
 
-def one_run(ctx, cfg, dom, rewards, T, algo_name=None):
+class RunRaised(Exception):
+    pass
+
+
+def one_run(ctx, cfg, dom, rewards, T, algo_name=None, second=False, tag="second_run"):
+    """drive one instance; in a *second* run of a product harness an exception of the code under test is
+    itself a discrepancy (the first run went through on the same inputs)"""
     c = dict(cfg)
     if algo_name:
         c["algo"] = algo_name
-    algo = build(ctx, c, dom)
+
+    def call(label, fn, *a):
+        if not second:
+            return ctx.call(label, fn, *a)
+        ok, v = ctx.soft_call(fn, *a)
+        if not ok:
+            ctx.fail(tag + ":raised_only_in_this_run", "%s raised %s: %s although the reference run did not" % (label, type(v).__name__, str(v)[:200]))
+            raise RunRaised()
+        return v
+
     pts = []
-    for t in range(1, T + 1):
-        p = ctx.call("pull", algo.pull, t)
-        pts.append(p)
-        ctx.call("receive_reward", algo.receive_reward, t, rewards[t - 1])
+    try:
+        algo = build(ctx, c, dom) if not second else call("init", lambda: build(ctx, c, dom))
+        for t in range(1, T + 1):
+            p = call("pull", algo.pull, t)
+            pts.append(p)
+            call("receive_reward", algo.receive_reward, t, rewards[t - 1])
+    except RunRaised:
+        return pts
     ok, lp = ctx.soft_call(algo.get_last_point)
     pts.append(lp if ok else None)
     return pts
@@ -110,6 +150,8 @@ def compare(ctx, tag, a, b, what):
 
 
 def run(ctx, cfg):
+    set_hash_scheme(0)
+    _HASH["count"] = 0
     mode, T, d = cfg["mode"], cfg["T"], cfg["d"]
     dom = sym_box(ctx, d)
     snap = snapshot(dom)
@@ -127,7 +169,9 @@ def run(ctx, cfg):
             a = one_run(ctx, cfg, dom, rewards, T)
             f0 = ctx.forks_so_far()
             shims.rng_replay()
-            b = one_run(ctx, cfg, dom, rewards, T)
+            set_hash_scheme(1)
+            b = one_run(ctx, cfg, dom, rewards, T, second=True, tag="determinism")
+            set_hash_scheme(0)
             if ctx.forks_so_far() != f0:
                 ctx.count("second_run_forked")
         finally:
@@ -150,7 +194,7 @@ def run(ctx, cfg):
             rb = [ctx.real("s%d" % t) for t in range(1, 3)]
             one_run(ctx, dict(cfg, params=OTHER_ARGS[cfg["algo"]]), dom_b, rb, 2)
             shims.rng_replay(tape=tape)
-            b = one_run(ctx, cfg, dom, rewards, T)
+            b = one_run(ctx, cfg, dom, rewards, T, second=True, tag="isolation")
         finally:
             shims.rng_fresh()
         compare(ctx, "isolation", a, b, "the same run repeated after an instance with other arguments was used")
